@@ -274,10 +274,3 @@ Fixpoint graph_paths (g : graph) : list (list node) :=
   | G n [] => [[n]]
   | G n cs => map (cons n) (flat_map graph_paths cs)
   end.
-
-Fixpoint paths (e : expr) : list (list node) :=
-  match e with
-  | ESingle n => [[n]]
-  | ESeries a b => flat_map (fun p => map (app p) (paths b)) (paths a)
-  | EPar a b => paths a ++ paths b
-  end.
